@@ -506,7 +506,7 @@ func replayOne(cfg replayCfg, eng *kb.Engine, b *behaviour, rep *replayReport) [
 		store0 = []interface{}{}
 	}
 	env.Rec.Log(gate.Event{"e": "Init", "base": gate.Clip(cfg.Base), "nkeys": len(keyNames), "store": store0, "engine": cfg.Engine,
-		"prefixes": rs.prefixTable()})
+		"prefixes": rs.prefixTable(), "expiring": []interface{}{}})
 	rs.initWatch()
 	// background processes must be parked before the schedule starts
 	if _, err := env.Sched.WaitStop("seq", cfg.Timeout); err != nil {
